@@ -81,9 +81,11 @@ OnTwin(e) ==
   ELSE <<"", "">>
 
 OnMcmc(e) ==
-  IF e.curve # Curve(g, e.x) THEN <<e.fam \o ".ModelPredictsTheSamplersCurve", "">>
-  ELSE IF ~e.lnlikeok THEN <<e.fam \o ".LnLikelihoodIsTheJitteredGaussianTerm", e.kf>>
-  ELSE IF ~e.initok THEN <<e.fam \o ".InitialPointIsTheChosenSampleInPriorUnits", "">>
+  IF ~e.initok THEN <<e.fam \o ".InitialPointIsTheChosenSampleInPriorUnits", "">>
+  ELSE IF e.curve # Curve(g, e.x) THEN <<e.fam \o ".ModelPredictsTheSamplersCurve", "">>
+  ELSE IF ~e.obsok THEN <<e.fam \o ".DataTermIsTheJitteredGaussian", "">>
+  ELSE IF ~e.lnlikeok THEN <<e.fam \o ".LnLikelihoodDiagnosticIsTheDataTerm", e.kf>>
+  ELSE IF ~e.freeok THEN <<e.fam \o ".FreeVariablesAreThePriorsVariables", "">>
   ELSE <<"", "">>
 
 Init == tid \in 1..Len(Tr) /\ l = 1 /\ g = [N |-> 0] /\ fails = <<>> /\ dkf = "" /\ kkf = ""
